@@ -50,8 +50,11 @@ func (s *vTraceStore) Save(_ http.ResponseWriter, _ *http.Request, ss *sessionsa
 	verifOp("Save", vTokSrc(ss.AccessToken))
 	return nil
 }
-func (s *vTraceStore) Clear(http.ResponseWriter, *http.Request) error { verifOp("Clear", 0); return nil }
-func (s *vTraceStore) VerifyConnection(context.Context) error           { return nil }
+func (s *vTraceStore) Clear(http.ResponseWriter, *http.Request) error {
+	verifOp("Clear", 0)
+	return nil
+}
+func (s *vTraceStore) VerifyConnection(context.Context) error { return nil }
 
 var vBusy int
 
